@@ -3,6 +3,25 @@
 import ast, json, os, subprocess, sys
 root = sys.argv[1] if len(sys.argv) > 1 else '/repo'
 names = []
+nested = []
+
+
+def walk_nested(fn, q):
+    for n in ast.walk(fn):
+        if isinstance(n, ast.FunctionDef) and n is not fn:
+            pass
+    def rec(stmts, q):
+        for st in stmts:
+            if isinstance(st, ast.FunctionDef):
+                nested.append(q + '.' + st.name)
+                rec(st.body, q + '.' + st.name)
+            else:
+                for f in ('body', 'orelse', 'finalbody'):
+                    if isinstance(getattr(st, f, None), list):
+                        rec(getattr(st, f), q)
+                for h in getattr(st, 'handlers', []) or []:
+                    rec(h.body, q)
+    rec(fn.body, q)
 for f in sorted(os.listdir(os.path.join(root, 'miros'))):
     if not f.endswith('.py'):
         continue
@@ -11,10 +30,12 @@ for f in sorted(os.listdir(os.path.join(root, 'miros'))):
     for st in t.body:
         if isinstance(st, ast.FunctionDef):
             names.append('%s.%s' % (mod, st.name))
+            walk_nested(st, '%s.%s' % (mod, st.name))
         elif isinstance(st, ast.ClassDef):
             for s2 in st.body:
                 if isinstance(s2, ast.FunctionDef):
                     names.append('%s.%s.%s' % (mod, st.name, s2.name))
+                    walk_nested(s2, '%s.%s.%s' % (mod, st.name, s2.name))
 commit = subprocess.run(['git', '-C', root, 'rev-parse', 'HEAD'], capture_output=True, text=True).stdout.strip()
-json.dump({'commit': commit, 'functions': sorted(set(names))}, open(os.path.join(os.path.dirname(os.path.abspath(__file__)), '..', 'sa', 'baseline_names.json'), 'w'), indent=0)
+json.dump({'commit': commit, 'functions': sorted(set(names)), 'nested': sorted(set(nested))}, open(os.path.join(os.path.dirname(os.path.abspath(__file__)), '..', 'sa', 'baseline_names.json'), 'w'), indent=0)
 print(len(set(names)), 'functions at', commit)
